@@ -197,6 +197,7 @@ def kfilt(
                 x=x[sel, :],
                 ntr_pad=0,
                 ntr_tap=None,
+                lagc=lagc,
                 collection=None,
                 butter_kwargs=butter_kwargs,
             )
